@@ -115,8 +115,15 @@ def _merge_one(args):
 
 
 def _filter_one(args):
+    # a 5th element True: the recording starts when the market is already in-play
+    inplay0 = len(args) > 4 and bool(args[4])
+    args = args[:4]
+    return _filter_one_(args, inplay0)
+
+
+def _filter_one_(args, inplay0=False):
     seq, inplay, s2s, mis = args
-    spec = simx.MarketSpec(book0=L.BOOK0, market_time_offset_s=10)
+    spec = simx.MarketSpec(book0=L.BOOK0, market_time_offset_s=10, inplay0=bool(inplay0))
     ticks = [[dt, L.EVENTS[e] if isinstance(e, str) else e] for dt, e in seq]
     lk = {}
     if inplay is not None:
@@ -130,7 +137,7 @@ def _filter_one(args):
     w.run()
     out = []
     counts = {"clause:C14.a": 0, "filtered_out": 0, "delivered": 0}
-    case = dict(seq=[list(x) for x in seq], inplay=inplay, seconds_to_start=s2s, max_inplay_seconds=mis)
+    case = dict(seq=[list(x) for x in seq], inplay=inplay, seconds_to_start=s2s, max_inplay_seconds=mis, inplay0=bool(inplay0))
     fk = "+".join(k for k in ("inplay", "seconds_to_start", "max_inplay_seconds") if k in lk) or "none"
     key = lambda pred: (False, fk, pred)
     if w.run_exception is not None:
@@ -383,6 +390,11 @@ def run(tier):
         if r["outcome"]:
             rep.outcomes.add(r["outcome"])
     rep.need("filter_pairs_differing")
+    # recordings that start when the market is already in-play (the in-play clock starts with the first update)
+    for seq in ([(1000, "Q"), (1000, "Q"), (2000, "Q"), (3000, "Q"), (1000, "SUS"), (1000, "OPN"), (1000, "Q")],):
+        for inplay in (None, True, False):
+            for mis in (None, 0, 2, 6):
+                fj.append((seq, inplay, None, mis, True))
     for r in core.pmap(_filter_one, fj):
         rep.add_violations(r["violations"])
         rep.merge_counts(r["counts"])
@@ -420,7 +432,7 @@ def replay(rep):
     elif "pair_seq" in c:
         r = _filter_pair(([tuple(x) for x in c["pair_seq"]], c["lk"][0], c["lk"][1]))
     elif "seq" in c:
-        r = _filter_one(([tuple(x) for x in c["seq"]], c["inplay"], c["seconds_to_start"], c["max_inplay_seconds"]))
+        r = _filter_one(([tuple(x) for x in c["seq"]], c["inplay"], c["seconds_to_start"], c["max_inplay_seconds"], c.get("inplay0", False)))
     elif "raise_at" in c:
         r = _restore_one((c["raise_at"],))
     elif "real_time_at" in c:
